@@ -12,6 +12,7 @@ import (
 	"sort"
 	"strings"
 	"sync"
+	"sync/atomic"
 	"time"
 
 	"golang.org/x/tools/go/ssa"
@@ -30,6 +31,7 @@ type Cfg struct {
 	Workers         int
 	SampleEvery     int
 	Solver          string
+	Arith           string // "int" (default) or "bv"
 }
 
 func defaultCfg() Cfg {
@@ -113,8 +115,8 @@ type Interp struct {
 	w    *Worker
 	tc   *TermCtx
 
-	globals  map[*ssa.Global]*value
-	initDone map[*ssa.Package]bool
+	globals   map[*ssa.Global]*value
+	initDone  map[*ssa.Package]bool
 	initDepth int
 
 	// path state
@@ -148,13 +150,15 @@ type Interp struct {
 	// side tables for sync primitives etc.
 	side map[any]any
 
-	bypass    *ssa.Function
+	bypass     *ssa.Function
 	initTarget *ssa.Function
-	nameCount map[string]int
-	uuidSeq   int
-	errSeq    int
-	funcs     map[string]bool
+	nameCount  map[string]int
+	uuidSeq    int
+	errSeq     int
+	funcs      map[string]bool
 }
+
+var liveSolverNs, liveQueries atomic.Int64
 
 type Worker struct {
 	id     int
@@ -167,35 +171,35 @@ type workItem struct {
 }
 
 type Explorer struct {
-	prog    *ssa.Program
-	cfg     Cfg
-	entry   *ssa.Function
-	name    string
+	prog  *ssa.Program
+	cfg   Cfg
+	entry *ssa.Function
+	name  string
 
-	mu       sync.Mutex
-	cond     *sync.Cond
-	queue    []workItem
-	busy     int
-	stop     bool
+	mu    sync.Mutex
+	cond  *sync.Cond
+	queue []workItem
+	busy  int
+	stop  bool
 
 	// results
-	Paths        int
-	ByOutcome    map[outcome]int
-	Violations   []*PathResult
-	Problems     []*PathResult // bound exceeded, engine errors, unknown
-	Samples      []*PathResult
-	AssertStats  map[string]*assertStat
-	ReachStats   map[string]int
-	Funcs        map[string]bool
-	Queries      int
-	SolverTime   time.Duration
-	UnknownQ     int
-	Transitions  int
-	MaxDecDepth  int
-	Steps        int64
-	started      time.Time
-	sampleSeen   int
-	tier         int
+	Paths       int
+	ByOutcome   map[outcome]int
+	Violations  []*PathResult
+	Problems    []*PathResult // bound exceeded, engine errors, unknown
+	Samples     []*PathResult
+	AssertStats map[string]*assertStat
+	ReachStats  map[string]int
+	Funcs       map[string]bool
+	Queries     int
+	SolverTime  time.Duration
+	UnknownQ    int
+	Transitions int
+	MaxDecDepth int
+	Steps       int64
+	started     time.Time
+	sampleSeen  int
+	tier        int
 }
 
 type assertStat struct {
@@ -217,6 +221,24 @@ func (ex *Explorer) Run() {
 	if n < 1 {
 		n = 1
 	}
+	stopProgress := make(chan struct{})
+	if os.Getenv("GOSMT_PROGRESS") != "" {
+		go func() {
+			t := time.NewTicker(10 * time.Second)
+			defer t.Stop()
+			for {
+				select {
+				case <-stopProgress:
+					return
+				case <-t.C:
+					ex.mu.Lock()
+					fmt.Fprintf(os.Stderr, "  [%s] %.0fs paths=%d queue=%d busy=%d violations=%d problems=%d maxdepth=%d steps=%d solver=%.1fs queries=%d\n", ex.name, time.Since(ex.started).Seconds(), ex.Paths, len(ex.queue), ex.busy, len(ex.Violations), len(ex.Problems), ex.MaxDecDepth, ex.Steps, time.Duration(liveSolverNs.Load()).Seconds(), liveQueries.Load())
+					ex.mu.Unlock()
+				}
+			}
+		}()
+	}
+	defer close(stopProgress)
 	for i := 0; i < n; i++ {
 		wg.Add(1)
 		go func(id int) {
@@ -365,6 +387,14 @@ func (w *Worker) runPath(prefix []decision) (res *PathResult, funcs map[string]b
 		case targetPanic:
 			res.Outcome = outcomePanic
 			res.Msg = "panic: " + show(r.v) + " " + r.msg
+		case errNotLIA:
+			res.Outcome = outcomeEngineError
+			res.Msg = "term not expressible in the integer encoding (" + r.what + "); the harness needs //vf:bounds arith=bv"
+			// the solver's scope stack may be inconsistent now: restart it
+			if w.solver != nil {
+				w.solver.Close()
+				w.solver = nil
+			}
 		case *EngineError:
 			res.Outcome = outcomeEngineError
 			res.Msg = r.msg
@@ -563,6 +593,7 @@ func (in *Interp) solverSynced() *Solver {
 			f, _ := os.Create(fmt.Sprintf("%s.%d", lf, w.id))
 			s.log = f
 		}
+		s.intMode = in.cfg.Arith != "bv"
 		w.solver = s
 	}
 	s := w.solver
